@@ -297,13 +297,7 @@ func c10S1One(env *fw.Env, i int64) {
 	trk.SetDialDelay(nil)
 	trk.AcceptGate = nil
 	if l != nil {
-		for {
-			stale, err := l.Accept(5 * time.Millisecond)
-			if err != nil {
-				break
-			}
-			stale.Close()
-		}
+		env.Event("s1_stale_backlog_connections_drained", int64(l.Drain()))
 	}
 	seen := trk.ListenCount()
 	if err := conn.Open(context.Background(), hsms.OpenBackground); err != nil {
